@@ -41,6 +41,7 @@ def _fb(name, params, hand, ty='α'):
 #   (2) `q, r = divmod(x, y)` becomes `q = x // y; r = x % y`;
 #   (3) `t1, …, tk = helper(args)` where the helper is straight-line (assignments and (2) only) and ends in
 #       `return e1, …, ek` is replaced by the helper's body with its locals prefixed, then `ti = ei`;
+#   (5) the constant np.pi / math.pi is written np.radians(180) (= pi over the reals; the whitelist has no pi);
 #   (4) in gcd the local names are renamed by ROLE, read off the final `return np.where(<x> > c, <f>, <s>)[()]`:
 #       the compared name becomes `a`, the branch assigned from `180 - …` (or called `far`) becomes `far`, the other
 #       `sep`.
@@ -173,6 +174,16 @@ def _normalised_module():
                             for n in ast.walk(b[0].value)):
             expr_helpers[name] = (ps, b[0].value)
 
+    class PiConst(ast.NodeTransformer):
+        """np.pi / numpy.pi / math.pi  ->  np.radians(180): the translator's whitelist has no constant pi, and over the
+        reals radians(180) = 180 * (pi / 180) IS pi (at Float it may differ by an ulp, far inside the 1e-10 tolerance)"""
+        def visit_Attribute(self, node):
+            if isinstance(node.ctx, ast.Load) and node.attr == 'pi' and isinstance(node.value, ast.Name) \
+                    and node.value.id in ('np', 'numpy', 'math'):
+                return ast.copy_location(ast.Call(func=ast.Attribute(value=ast.Name(id='np', ctx=ast.Load()), attr='radians', ctx=ast.Load()),
+                                                  args=[ast.Constant(value=180)], keywords=[]), node)
+            return self.generic_visit(node)
+
     class InlineExpr(ast.NodeTransformer):
         def visit_Call(self, node):
             self.generic_visit(node)
@@ -278,6 +289,7 @@ def _normalised_module():
         new = copy.deepcopy(tree)
         for n in new.body:
             if isinstance(n, ast.FunctionDef) and n.name in ('gcd', 'bear', 'translate', 'dec2dms', 'dec2hms'):
+                PiConst().visit(n)
                 InlineExpr().visit(n)
                 inline_blocks(n)
                 if n.name == 'gcd':
